@@ -11,6 +11,7 @@
   by the correspondence, `mergeLogCellF`).
 -/
 import Properties.FullApi
+import Properties.FullLogMerge
 import Properties.C06
 import Properties.C09
 import Proofs.LogCounter
